@@ -243,6 +243,29 @@ M('helper-mixed-not-transposed', 'C11', 'assembled-matrix-triangle-typestate',
 M('helper-reads-b-through-a-option', 'C11', 'assembled-matrix-triangle-typestate',
   [('MatOp/SymShiftInvert.h', "SpMat matB = B.template selfadjointView<UploB>();", "SpMat matB = B.template selfadjointView<UploA>();")])
 
+# ----------------------------------------------------------------------------- C09
+M('schur-cap-no-throw', 'C09', 'iteration-cap-implies-throw',
+  [('LinAlg/UpperHessenbergSchur.h', """        if (total_iter > max_iter)
+            throw std::runtime_error("UpperHessenbergSchur: Schur decomposition failed");
+""", "")], 'never hit by the suite: unconverged T/U returned')
+M('schur-cap-throw-off-by-one', 'C09', 'iteration-cap-implies-throw',
+  [('LinAlg/UpperHessenbergSchur.h', """        if (total_iter > max_iter)
+            throw std::runtime_error""", """        if (total_iter > max_iter + 1)
+            throw std::runtime_error""")], 'the break fires at max_iter+1, the throw needs max_iter+2')
+M('tridiag-cap-forgets-flag', 'C09', 'iteration-cap-implies-throw',
+  [('LinAlg/TridiagEigen.h', """                info = 1;
+                break;""", """                break;""")])
+M('hesseigen-pair-order-swapped', 'C09', 'exact-real-and-conjugate-pair-convention',
+  [('LinAlg/UpperHessenbergEigen.h', """                m_eivalues.coeffRef(i) = Complex(m_matT.coeff(i + 1, i + 1) + p, z);
+                m_eivalues.coeffRef(i + 1) = Complex(m_matT.coeff(i + 1, i + 1) + p, -z);""", """                m_eivalues.coeffRef(i) = Complex(m_matT.coeff(i + 1, i + 1) + p, -z);
+                m_eivalues.coeffRef(i + 1) = Complex(m_matT.coeff(i + 1, i + 1) + p, z);""")])
+M('hesseigen-real-via-complex-ctor', 'C09', 'exact-real-and-conjugate-pair-convention',
+  [('LinAlg/UpperHessenbergEigen.h', "m_eivalues.coeffRef(i) = m_matT.coeff(i, i);", "m_eivalues.coeffRef(i) = Complex(m_matT.coeff(i, i), m_matT.coeff(i, i) * Scalar(0));")],
+  'imaginary part is 0*x: NaN for infinite x, -0 for negative x')
+M('bkldlt-pivot-test-wrong-entry', 'C10', 'interchanged-pivot-is-tested',
+  [('LinAlg/BKLDLT.h', "if (abs(diag_coeff(r)) >= alpha * sigma)", "if (abs_akk >= alpha * sigma)")],
+  'reverts fix be8ca1b: nonsingular [1 2 0; 2 4 1; 0 1 0] reported as NumericalIssue')
+
 # behaviour-preserving edits: every listed check must stay silent (exit 0)
 NEUTRAL = []
 
